@@ -368,6 +368,9 @@ func (c *Ctx) evalAppend(x *ast.CallExpr, s *State) Value {
 	nl := c.nameValue(s, "applen", IntV{newLen}).(IntV).T
 	cp := c.fresh("appcap", sInt)
 	s.assume(and(le(nl, cp), le(cp, maxLen)))
+	// (language spec: append re-uses the underlying array when the capacity suffices - the result then has the capacity
+	// of its first operand; modelled as a copy it still has that capacity)
+	s.assume(implies(le(nl, base.Cap), eq(cp, base.Cap)))
 	c.note("append: the resulting length is assumed to stay below 2^47")
 	return SliceV{ref, "0", nl, cp, false}
 }
